@@ -195,17 +195,12 @@ func msdUint(a, aux []uint, lo, hi, d int) {
 		return
 	}
 
-	// special case for most significant byte
-	if d == 0 && count[R/2] > 0 {
-		msdUint(a, aux, lo, lo+count[R/2]-1, d+1)
-	}
-
-	// special case for other bytes
-	if d != 0 && count[0] > 0 {
+	// special case for the first digit (unsigned numbers have no sign byte to treat differently)
+	if count[0] > 0 {
 		msdUint(a, aux, lo, lo+count[0]-1, d+1)
 	}
 
-	// recursively sort for each digit (could skip r = R/2 for d = 0 and skip r = R for d > 0)
+	// recursively sort for each digit (could skip r = R)
 	for r := 0; r < R; r++ {
 		if count[r+1] > count[r] {
 			msdUint(a, aux, lo+count[r], lo+count[r+1]-1, d+1)
